@@ -10,6 +10,7 @@ SW = [M, M + "/ptrify", M + "/common", M + "/transform", M + "/parse", "strings"
 ENVP = [M, M + "/ptrify", M + "/common", M + "/transform", M + "/parse", M + "/tagformat", M + "/tagformat/caseconversion", M + "/helper",
         "github.com/fatih/structtag", "strings", "unicode/utf8", "strconv", "go/token", "text/scanner", "bytes", "io"]
 FLAGP = ENVP + [M + "/sources/flag/flaghelper", "flag", "sort"]
+HELP = [M + "/parse", "strings", "unicode/utf8", "strconv", "go/token", "text/scanner", "bytes", "io", "sort"]
 TEXT = ["strings", "unicode/utf8", "strconv", "text/scanner", "bytes", "io", "go/token"]
 
 COMMON_ASSUME = [
@@ -195,6 +196,10 @@ CHECKS = {
             {"entry": PARSE + ".HarnessC15IntSliceWide", "pkgs": LIBS, "must_reach": ["c15-wide-end"]},
             {"entry": PARSE + ".HarnessC15IntSliceTwo", "pkgs": LIBS, "must_reach": ["c15-two-end"]},
             {"entry": PARSE + ".HarnessC15ParseStringInts", "pkgs": LIBS, "must_reach": ["c15-parsestring-end"]},
+            {"entry": PARSE + ".HarnessC15FloatBoundaries", "pkgs": LIBS, "must_reach": ["c15-float-end"]},
+            {"entry": M + "/sources/flag/flaghelper.HarnessC15HelperInts", "pkgs": HELP, "must_reach": ["c15-helper-ints-end"]},
+            {"entry": M + "/sources/flag/flaghelper.HarnessC15HelperStrings1", "pkgs": HELP, "must_reach": ["c15-helper-strings-end"], "loopcap": 400},
+            {"entry": M + "/sources/flag/flaghelper.HarnessC15HelperStrings2", "pkgs": HELP, "must_reach": ["c15-helper-strings-end"], "loopcap": 400, "tiers": ["thorough"]},
         ],
         "bounds": {"quick": "11 integral-slice instantiations and 12 parse.String integer types x 5 literal styles x paddings; value = any int64/uint64; 1-2 elements",
                    "thorough": "same plus structure harnesses"},
